@@ -30,6 +30,14 @@ MessageTable == <<
   [reason |-> "negative-tick", prefix |-> <<105, 110, 112, 117, 116, 32, 116, 105, 99, 107, 32, 45>>]
 >>
 
+\* RegexNotMatchError, the exception every recogniser raises on a line it does not accept (and the dispatcher swallows): its
+\* message carries the offending string and the pattern VERBATIM, whatever characters they contain - braces, per-cent signs,
+\* backslashes.  The message is built, not formatted: a template applied to text that already contains the line is the wrong
+\* design (seeded changes C09k, C14k, C18k, written independently of each other, all built it).
+RnmString(s, rx)  == <<115, 116, 114, 105, 110, 103, 32, 39>> \o s \o <<39, 32, 102, 97, 105, 108, 101, 100, 32, 116, 111, 32, 109, 97, 116, 99, 104, 32, 114, 101, 103, 101, 120, 32, 39>> \o rx \o <<39>>
+RnmRegexOnly(rx)  == <<114, 101, 103, 101, 120, 32, 39>> \o rx \o <<39, 32, 102, 97, 105, 108, 101, 100, 32, 116, 111, 32, 109, 97, 116, 99, 104>>
+RnmCollection(n, rx) == <<110, 111, 110, 101, 32, 111, 102, 32>> \o n \o <<32, 115, 116, 114, 105, 110, 103, 115, 32, 109, 97, 116, 99, 104, 101, 100, 32, 114, 101, 103, 101, 120, 32, 39>> \o rx \o <<39>>
+
 PrefixOf(reason) == LET k == CHOOSE j \in DOMAIN MessageTable : MessageTable[j].reason = reason IN MessageTable[k].prefix
 KnownReason(reason) == \E j \in DOMAIN MessageTable : MessageTable[j].reason = reason
 HasPrefix(msg, p) == Len(msg) >= Len(p) /\ SubSeq(msg, 1, Len(p)) = p
